@@ -528,6 +528,9 @@ var pureList = map[string]bool{
 	"unicode/utf8.RuneLen": true, "unicode/utf8.RuneCountInString": true,
 	// assumption A16: the resolved tag of a decoded YAML node is a function of the node (pint never retags a node)
 	"(*gopkg.in/yaml.v3.Node).ShortTag": true,
+	// the name validation scheme is set once per parser (parser.NewParser) and not changed while a file is parsed
+	"github.com/prometheus/common/model.IsValidMetricName": true,
+	"(github.com/prometheus/common/model.LabelName).IsValid": true, "(github.com/prometheus/common/model.LabelValue).IsValid": true,
 }
 
 // read-only accessors of the Prometheus query AST (assumption A5): they compute a value from the node and write nothing
